@@ -15,6 +15,7 @@ func init() {
 		Explain: "Static structural necessary conditions of 'returned values are private snapshots': " +
 			"(no-table-memory-escape) taint analysis over internal/kvstore and internal/kvstore/table: a slice of Table.memory (and anything resliced from it, or returned by a helper that returns such a slice) may only be read in place (index, len, copy as source or destination, string conversion, encoding/binary readers, regexp match); it must not be stored into an entry (SetValue/SetKey...), stored into any heap object, converted to an interface, captured, or returned across the storage.Engine API by a KVStore method; " +
 			"(put-does-not-retain) the caller's value handed to Put/GetPut on every client path (DMap, EmbeddedDMap, ClusterDMap, DMapPipeline) flows only into the RESP encoder, whose byte/string cases hand the bytes to Write (a copy), or into the next Put/GetPut layer; pooled encode buffers are released only by a deferred call and never back a queued pipeline command. " +
+			"(returned-entry-not-shared) a function of the read path that returns a storage.Entry starts no goroutine that keeps the returned entry (or the record it is taken from): nothing inside olric reads the caller's result after the call returned. " +
 			"NOT decided: aliasing inside third-party packages (go-redis reply buffers), the client-side unsafe string conversions of the response's own private buffer (advisory).",
 		Run: checkC18,
 	})
@@ -23,6 +24,7 @@ func init() {
 func checkC18(r *core.Run) {
 	memoryEscape(r)
 	putDoesNotRetain(r)
+	c18ReturnedEntryNotShared(r)
 }
 
 type taintState struct {
